@@ -22,6 +22,7 @@ type ParCase struct {
 	Workers int      `json:"workers"`
 	Tape    []int    `json:"tape"`
 	Cmd     []string `json:"cmd,omitempty"` // system-level corollary: run this command at 1 and at Workers CPUs
+	NFiles  int      `json:"n_files,omitempty"` // the text is split into this many input files (record-wise)
 }
 
 func (p *ParCase) text() string {
@@ -138,6 +139,12 @@ func (parEngine) generate(property string, seed int64, index int, tier string) *
 		}
 		if pc.Workers < 2 {
 			pc.Workers = 2
+		}
+		if r.Chance(1, 3) {
+			// several input files (more files than CPUs included): read-only commands only
+			pc.NFiles = r.Range(2, 6)
+			pc.Cmd = cmds[r.Intn(10)]
+			pc.Workers = r.Pick2([]int{2, 2, 3, 4, 8})
 		}
 	}
 	pc.setText(text)
@@ -330,6 +337,16 @@ func parExecuteCmd(sc *Scenario, out *Outcome) *Outcome {
 	_ = os.WriteFile(file, []byte(pc.text()), 0o644)
 	_ = os.MkdirAll(filepath.Join(root, "cfg"), 0o755)
 	argv := append(append([]string{}, pc.Cmd...), file)
+	if pc.NFiles > 1 {
+		// split the text record-wise (at blank lines) into NFiles files
+		parts := splitAtBlankLines(pc.text(), pc.NFiles)
+		argv = append([]string{}, pc.Cmd...)
+		for i, part := range parts {
+			f := filepath.Join(root, fmt.Sprintf("f%d.klg", i+1))
+			_ = os.WriteFile(f, []byte(part), 0o644)
+			argv = append(argv, f)
+		}
+	}
 	after := map[int]string{}
 	run := func(cpus int, tape []int) ProcResult {
 		_ = os.WriteFile(file, []byte(pc.text()), 0o644)
@@ -428,4 +445,32 @@ func shrinkText(text string) []string {
 		}
 	}
 	return out
+}
+
+// splitAtBlankLines cuts a text into at most n parts, only right after blank lines.
+func splitAtBlankLines(text string, n int) []string {
+	lines := strings.SplitAfter(text, "\n")
+	var blocks []string
+	cur := ""
+	for _, l := range lines {
+		cur += l
+		if strings.Trim(l, " \t\r\n") == "" && cur != "" {
+			blocks = append(blocks, cur)
+			cur = ""
+		}
+	}
+	if cur != "" {
+		blocks = append(blocks, cur)
+	}
+	if len(blocks) == 0 {
+		return []string{text}
+	}
+	if n > len(blocks) {
+		n = len(blocks)
+	}
+	parts := make([]string, n)
+	for i, b := range blocks {
+		parts[i*n/len(blocks)] += b
+	}
+	return parts
 }
